@@ -245,6 +245,10 @@ def c06(ctx, res):
         src = "r%d.asm" % ix
         ext = ".lc3" if ix % 2 == 0 else ".obj"
         obj = "r%d%s" % (ix, ext)
+        if ix % 5 == 3:
+            # names with several dots, a leading dot, blanks: the file type is what stands behind the *last* dot
+            src = ("r%d.v2.asm", "my prog %d.1.0.asm", ".hidden%d.asm", "r%d.tar.gz.asm")[ix // 5 % 4] % ix
+            obj = ("r%d.v2" + ext, "my prog %d.1.0" + ext, ".hidden%d" + ext, "r%d.2024-10.final" + ext)[ix // 5 % 4] % ix
         _write(os.path.join(d, src), e["source"])
         if ix % 2 == 0:
             # destination already exists and is longer than the new object file
@@ -264,6 +268,8 @@ def c06(ctx, res):
         res.cls("round_trip")
         res.cls("dest:" + ("longer_file_existed" if ix % 2 == 0 else "absent"))
         res.cls("ext:" + obj.rsplit(".", 1)[1])
+        if obj.count(".") > 1 or obj.startswith("."):
+            res.cls("name_with_several_dots")
         img = e["image"]
         want = b"".join(int(w).to_bytes(2, "big") for w in img)
         detail = {"source": e["source"], "compile": c.brief(), "reference_image": ["x%04X" % w for w in img[:40]]}
@@ -460,7 +466,7 @@ def c06(ctx, res):
                                 % (behind[ix], r.rc), detail)
     c06_after_failed_compile(ctx, res)
     res.distinct += len(set(files))
-    res.require(["round_trip_after_a_failed_compile", "round_trip", "dest:longer_file_existed", "dest:absent", "ext:lc3", "ext:obj", "loader:empty", "loader:odd", "loader:fits", "loader:too_long",
+    res.require(["round_trip_after_a_failed_compile", "name_with_several_dots", "round_trip", "dest:longer_file_existed", "dest:absent", "ext:lc3", "ext:obj", "loader:empty", "loader:odd", "loader:fits", "loader:too_long",
                  "edge:FFFF", "edge:10000", "edge:FFFE", "delivery:fifo:odd", "delivery:fifo:even", "loader:runs_into_implicit_halt", "object_with_long_zero_run", "directed_round_trip:across_fe00_string", "directed_round_trip:crlf"], "L2")
     return res
 
@@ -607,6 +613,9 @@ def c07(ctx, res):
         cases.append((b"; caf\xe9 \n\xff\xfe halt\n\x80\n", "name:" + ext, "not_utf8"))
         cases.append((b"\xe9\xe9", "name:" + ext, "not_utf8"))
 
+    shm = "/dev/shm" if os.path.isdir("/dev/shm") and os.stat("/dev/shm").st_dev != os.stat(d).st_dev else "/var/tmp"
+    ENVS = [None, None, None, None, {"TMPDIR": shm}, None, None, {"TMPDIR": "/nonexistent/tmp"}, {"LC_ALL": "C", "HOME": "/nonexistent/home"}]
+
     def one(ix):
         src, stack, tag = cases[ix]
         name = "s%d.asm" % ix
@@ -622,10 +631,16 @@ def c07(ctx, res):
             cmpl = lace(ctx, g + ["compile", name, "s%d.lc3" % ix], cwd=d)
             run = lace(ctx, g + ["run", name, "--minimal"], cwd=d, stdin=b"", timeout=6)
             return ix, chk, cmpl, run
-        chk = lace(ctx, ["check", name] + f, cwd=d)
-        cmpl = lace(ctx, ["compile", name, "s%d.lc3" % ix] + f, cwd=d)
-        run = lace(ctx, ["run", name, "--minimal"] + f, cwd=d, stdin=b"", timeout=6)
+        # some of the cases under another TMPDIR (a directory on another file system, one that does not
+        # exist) and locale: none of that is the source's business
+        env = ENVS[ix % 9] if ix % 9 < len(ENVS) else None
+        chk = lace(ctx, ["check", name] + f, cwd=d, env=env)
+        cmpl = lace(ctx, ["compile", name, "s%d.lc3" % ix] + f, cwd=d, env=env)
+        run = lace(ctx, ["run", name, "--minimal"] + f, cwd=d, stdin=b"", timeout=6, env=env)
         return ix, chk, cmpl, run
+    for ix in range(len(cases)):
+        if ix % 9 < len(ENVS) and ENVS[ix % 9]:
+            res.cls("environment:" + "+".join(sorted(ENVS[ix % 9])))
     for ix, chk, cmpl, run in pmap(one, range(len(cases))):
         src, stack, tag = cases[ix]
         res.evaluations += 1
@@ -1035,7 +1050,8 @@ def c08(ctx, res):
     c08_fsize(ctx, res, big, d)
     c08_fifo(ctx, res, d)
     c08_removed_cwd(ctx, res, d)
-    floors = ["fault:emit_fail", "fault:ok", "fault:ok_top_of_memory", "fault:dev_full", "fault:missing_parent", "fault:dest_is_directory",
+    c08_surroundings(ctx, res, d)
+    floors = ["surroundings:stdout_reader_gone", "surroundings:dest_mtime_in_the_future", "surroundings:compiled_all_the_same", "fault:emit_fail", "fault:ok", "fault:ok_top_of_memory", "fault:dev_full", "fault:missing_parent", "fault:dest_is_directory",
               "dest:pre-existing", "dest:absent", "success_complete", "failure_destination_untouched",
               "fault:name_not_utf8", "fault:name_long_2byte", "fault:name_long_3byte", "fault:name_long_4byte", "fault:name_long_ascii",
               "fault:ok_big_zero_tail", "fault:ok_big_zero_middle", "dest:pre-existing-same-size", "fault:file_size_limit", "file_size_limit:object_fits", "fault:ok_no_statements", "fault:fifo_reader_goes_away", "fault:default_dest_emit_fail", "fault:default_dest_ok", "fault:working_directory_removed"]
@@ -1080,6 +1096,87 @@ def c08_removed_cwd(ctx, res, d):
             elif p.returncode != 0 and after != before:
                 res.violate("C08/failed-but-destination-changed/working_directory_removed",
                             "exit %s but the destination was %s" % (p.returncode, "created" if before is None else "modified"), detail)
+
+
+def c08_surroundings(ctx, res, d):
+    """Things around a compile that are not the destination: standard output that takes no data (a full
+    device, a pipe whose reader has gone), both streams closed, a destination whose modification time
+    lies in the future, an odd TMPDIR. Whatever lace makes of them (refusing to start because it
+    cannot print counts as failing), exit 0 means the complete object file is there and any other
+    status means the destination is as it was. The process ending on a failed print (the runtime's
+    own abort, status 101) is a failure like any other here, as long as the destination is untouched."""
+    exe = common.cli_bin(ctx)
+    env = dict(common.ENV, NO_COLOR="1", XDG_CACHE_HOME=ctx.scratch)
+    src = "add r0 r0 #1\nhalt\n" + ".fill x4142\n" * 3000
+    img = bytes.fromhex("30001021f025") + b"\x41\x42" * 3000
+    full = common.full_device(ctx)
+    other_fs = "/dev/shm" if os.path.isdir("/dev/shm") and os.stat("/dev/shm").st_dev != os.stat(d).st_dev else None
+    kinds = ["stdout_full", "stdout_reader_gone", "streams_closed", "dest_mtime_in_the_future", "tmpdir_missing", "tmpdir_other_fs", "stdout_is_the_destination_dir"]
+    for kind in kinds:
+        for pre in (True, False):
+            base = os.path.join(d, "sur_%s_%d" % (kind, pre))
+            os.makedirs(base, exist_ok=True)
+            _write(os.path.join(base, "p.asm"), src)
+            dest = os.path.join(base, "p.lc3")
+            if pre:
+                _write(dest, b"PREVIOUS CONTENTS\n" * 10)
+            e = dict(env)
+            stdout, stderr, pre_fn = subprocess.PIPE, subprocess.PIPE, None
+            opened = []
+            if kind == "stdout_full":
+                if not full:
+                    continue
+                stdout = open(full, "wb")
+                opened.append(stdout)
+            elif kind == "stdout_reader_gone":
+                r_fd, w_fd = os.pipe()
+                os.close(r_fd)
+                stdout = os.fdopen(w_fd, "wb")
+                opened.append(stdout)
+            elif kind == "streams_closed":
+                def pre_fn():
+                    os.close(1)
+                    os.close(2)
+                stdout = stderr = None
+            elif kind == "dest_mtime_in_the_future":
+                if not pre:
+                    continue
+                t = time.time() + 3 * 3600
+                os.utime(dest, (t, t))
+            elif kind == "tmpdir_missing":
+                e["TMPDIR"] = os.path.join(base, "no", "such", "dir")
+            elif kind == "tmpdir_other_fs":
+                if not other_fs:
+                    continue
+                e["TMPDIR"] = other_fs
+            elif kind == "stdout_is_the_destination_dir":
+                stdout = open(os.path.join(base, "log.txt"), "wb")
+                opened.append(stdout)
+            before = snapshot(dest)
+            try:
+                p = subprocess.run([exe, "compile", "p.asm", "p.lc3"], cwd=base, env=e, stdin=subprocess.DEVNULL, stdout=stdout, stderr=stderr,
+                                   preexec_fn=pre_fn, timeout=60)
+                rc, err = p.returncode, (p.stderr or b"")
+            except subprocess.TimeoutExpired:
+                rc, err = None, b""
+            for f in opened:
+                f.close()
+            after = snapshot(dest)
+            res.evaluations += 1
+            res.cls("surroundings:" + kind)
+            detail = {"surroundings": kind, "destination_pre_existing": pre, "exit": rc, "stderr": err.decode("utf-8", "replace")[-300:],
+                      "before": _snap_brief(before), "after": _snap_brief(after)}
+            if rc is None or rc < 0:
+                res.violate("C08/crash/" + kind, "`lace compile` hung or was killed by a signal (%s)" % rc, detail)
+            elif rc == 0 and not (after is not None and after[0] == "file" and after[1] == img):
+                res.violate("C08/exit-0-incomplete-file/" + kind, "exit 0 but the destination does not hold the complete object file", detail)
+            elif rc != 0 and after != before:
+                res.violate("C08/failed-but-destination-changed/" + kind,
+                            "exit %s but the destination was %s" % (rc, "created" if before is None else "modified"), detail)
+            elif rc == 0:
+                res.cls("surroundings:compiled_all_the_same")
+            else:
+                res.cls("surroundings:failed_destination_untouched")
 
 
 def c08_fifo(ctx, res, d):
@@ -1242,7 +1339,10 @@ def c14_transport(ctx, res):
     fixed = [["echo a\u00e9b", "echo \u20acuro", "echo \U0001F34B", "echo \U00010000|\U0010FFFF", "echo e\u0301", "registers", "exit"],
              ["print \U0001F34B", "\U0001F34B", "\u00e9 r0", "move r1 \U0001D11E", "echo ok", "print r1", "quit"],
              ["echo " + "long line " * 9, "echo " + "\U0001F34B" * 40, "print" + " " * 130 + "r2", "echo " + "y" * 1100, "exit"],
-             ["", " ", ";", "echo ;", "echo x", "exit"]]
+             ["", " ", ";", "echo ;", "echo x", "exit"],
+             # two-byte characters from every sixteenth of their range (lead bytes xC2..xDF: Latin, Greek, Cyrillic, Hebrew, Arabic, N'Ko)
+             ["echo \u00a9\u00ff", "echo \u03a9\u03c9", "echo \u043f\u0440\u0438\u0432\u0435\u0442", "echo \u0400\u04ff", "echo \u05e9\u05dc\u05d5\u05dd", "echo \u0645\u0631\u062d\u0628\u0627",
+              "echo \u07c0\u07ff", "\u0434 r0", "print \u0431", "registers", "exit"]]
     for si in range(n_scripts):
         if si < len(fixed):
             cmds = fixed[si]
@@ -1379,7 +1479,7 @@ def c10_cli(ctx, res):
                (["break add lp+3", "continue", "registers"], "x3004", "x0005")]
     for si, (cmds, pc, r1) in enumerate(scripts):
         outs = {}
-        for via in ("arg", "stdin", "stdin+nl", "split"):
+        for via in ("arg", "stdin", "stdin+nl", "split", "stdin-crlf", "arg-newlines"):
             args = ["debug", "loop.asm", "--minimal"]
             stdin = b""
             if via == "arg":
@@ -1387,6 +1487,11 @@ def c10_cli(ctx, res):
             elif via == "split":
                 args += ["--command", cmds[0]]
                 stdin = "\n".join(cmds[1:]).encode()
+            elif via == "stdin-crlf":
+                # a script file saved with CR LF line ends; a tab after the last word of a line
+                stdin = "\r\n".join(c + ("\t" if k % 2 else "") for k, c in enumerate(cmds)).encode() + b"\r\n"
+            elif via == "arg-newlines":
+                args += ["--command", " \n".join(cmds) + "\n"]
             else:
                 stdin = "\n".join(cmds).encode() + (b"\n" if via == "stdin+nl" else b"")
             r = lace(ctx, args, stdin=stdin, cwd=d, timeout=30)
@@ -1439,7 +1544,20 @@ def c15_cli(ctx, res):
         elif got != want:
             res.violate("C15/cli/wrong-effect", "evals delivered as %r leave %s, the instructions' ISA semantics give %s" % (via, got, want),
                         dict(r.brief(), delivery=via, script=script))
-    res.require(["l2:eval_script_via:arg", "l2:eval_script_via:stdin", "l2:eval_script_via:split"], "L2")
+    # an input trap evaluated while the commands themselves arrive on standard input: the trap takes the
+    # very next byte, the command reader goes on behind it
+    for trap, stdin, want_r0 in (("getc", b"eval getc\nXprint r0\nexit\n", "x0058"), ("getc", b"eval getc\n\nprint r0\nexit\n", "x000a"),
+                                 ("in", b"registers\neval in\nqprint r0\nexit\n", "x0071"), ("getc", b"eval getc\nAeval getc\nBprint r0\nexit\n", "x0042")):
+        r = lace(ctx, ["debug", "e.asm", "--minimal"], stdin=stdin, cwd=d, timeout=30)
+        res.evaluations += 1
+        res.cls("l2:eval_input_trap_with_commands_on_stdin")
+        got = [l.strip() for l in r.err.decode("utf-8", "replace").splitlines() if re.fullmatch(r"x[0-9a-f]{4}", l.strip())]
+        if r.rc is None or r.crashed:
+            res.violate("C15/cli/crash", "`lace debug` crashed (exit %s) on `eval %s`" % (r.rc, trap), dict(r.brief(), stdin=repr(stdin)))
+        elif got[-1:] != [want_r0]:
+            res.violate("C15/cli/input-trap", "`eval %s` with %r on standard input: `print r0` answers %s (exit %s), the next input byte gives %s" % (trap, stdin, got[-1:], r.rc, want_r0),
+                        dict(r.brief(), stdin=repr(stdin)))
+    res.require(["l2:eval_script_via:arg", "l2:eval_script_via:stdin", "l2:eval_script_via:split", "l2:eval_input_trap_with_commands_on_stdin"], "L2")
 
 
 # ------------------------------------------------------------------ C16 (L2: the real readers)
@@ -1457,6 +1575,8 @@ def c16_cli(ctx, res):
              "to_ffff.asm": "ld r2 t\njmp r2\nt .fill xFFFF\n"}
     # a program whose own output contains terminal control characters (ESC without a final `m`, BEL, CSI)
     progs["prints_esc.asm"] = "lea r0 s\nputs\nld r0 e\nout\nhalt\ne .fill x1b\ns .stringz \"a\x1b[2Jb\x1b[1mc\x07\"\n"
+    # a string whose last character sits in the last word of memory: PUTS goes on at x0000 (a zero) and ends
+    progs["puts_at_ffff.asm"] = "ld r1 a\nld r0 p\nstr r1 r0 #0\nputs\nld r0 q\nstr r1 r0 #0\nstr r1 r0 #1\nputs\nhalt\na .fill x41\np .fill xFFFF\nq .fill xFFFE\n"
     for n, t in progs.items():
         _write(os.path.join(d, n), t)
     endings = ["step", "continue", "// note", "step // note", "continue //", "//", "# note", "-- note", "; ", ";", ";;", "step;",
@@ -1481,6 +1601,11 @@ def c16_cli(ctx, res):
                         continue
                     jobs.append((pn, pre + end + ("\n" if final_nl else ""), via))
 
+    # standard input that cannot be read at all (a directory): the script given with --command runs, then the
+    # reader meets an error instead of an end - the session ends (giving up counts), it does not spin
+    for pn in ("halts.asm", "puts_at_ffff.asm", "to_ffff.asm"):
+        for cmd in ("continue", "step;step", "eval puts;continue", ""):
+            jobs.append((pn, cmd, "stdin-is-a-directory"))
     for pn in ("halts.asm", "to_ffff.asm"):
         for raw in raw_endings:
             for final_nl in (False, True):
@@ -1495,20 +1620,32 @@ def c16_cli(ctx, res):
         env = dict(common.ENV, NO_COLOR="1", XDG_CACHE_HOME=ctx.scratch)
         args = [exe, "debug", pn, "--minimal"]
         data = b""
+        dirfd = None
         if via == "arg":
             args += ["--command", script.replace("\n", ";").replace("\x00", "")]
+        elif via == "stdin-is-a-directory":
+            if script:
+                args += ["--command", script]
+            dirfd = os.open(d, os.O_RDONLY)
         elif via == "stdin-bytes":
             data = script
         else:
             data = script.encode()
         t0 = time.time()
         try:
-            p = subprocess.run(args, input=data, stdout=subprocess.PIPE, stderr=subprocess.PIPE, cwd=d, env=env,
-                               timeout=120, preexec_fn=limit)
+            if dirfd is not None:
+                p = subprocess.run(args, stdin=dirfd, stdout=subprocess.PIPE, stderr=subprocess.PIPE, cwd=d, env=env,
+                                   timeout=120, preexec_fn=limit)
+            else:
+                p = subprocess.run(args, input=data, stdout=subprocess.PIPE, stderr=subprocess.PIPE, cwd=d, env=env,
+                                   timeout=120, preexec_fn=limit)
             rc = p.returncode
             out, err = p.stdout, p.stderr
         except subprocess.TimeoutExpired as ex:
             rc, out, err = None, ex.stdout or b"", ex.stderr or b""
+        finally:
+            if dirfd is not None:
+                os.close(dirfd)
         return job, rc, out[-300:], err[-300:], time.time() - t0
     for (pn, script, via), rc, out, err, wall in pmap(one, jobs):
         res.evaluations += 1
@@ -1530,6 +1667,9 @@ def c16_cli(ctx, res):
         elif via == "stdin-bytes" and rc == 101:
             res.cls("l2:session_terminated")
             res.cls("l2:not_utf8_ended_by_reader_giving_up")
+        elif via == "stdin-is-a-directory" and rc == 101:
+            res.cls("l2:session_terminated")
+            res.cls("l2:unreadable_stdin_ended_by_reader_giving_up")
         elif rc == 101 or (rc is not None and rc < 0):
             res.violate("C16/cli/crash", "`lace debug` crashed (exit %s)" % rc, detail)
         else:
@@ -1537,7 +1677,7 @@ def c16_cli(ctx, res):
     c16_input_traps(ctx, res, d)
     res.require(["l2:session_through_real_reader:stdin", "l2:session_through_real_reader:arg", "l2:script_without_final_newline",
                  "l2:session_terminated", "l2:input_trap_under_debugger:arg", "l2:input_trap_under_debugger:stdin", "l2:program:halts", "l2:program:runs_off", "l2:program:jumps_low", "l2:program:to_ffff",
-                 "l2:program:prints_esc", "l2:script_not_utf8"], "L2")
+                 "l2:program:prints_esc", "l2:script_not_utf8", "l2:program:puts_at_ffff", "l2:session_through_real_reader:stdin-is-a-directory"], "L2")
 
 
 def _blocked_on_itself(pid):
@@ -1887,7 +2027,9 @@ def c09_cli(ctx, res, limit):
     d = _dir(ctx, "c09")
     pool = ["step", "s", "si 3", "step into 10", "so", "continue", "c", "registers", "print r1", "print ^", "assembly",
             "break list", "echo x", "help", "break add ^2", "break add x{o1:04x}", "break remove x{o1:04x}", "p x{o0:04x}",
-            "a x{o1:04x}", "bogus command", "si x", "print"]
+            "a x{o1:04x}", "bogus command", "si x", "print",
+            # text in other scripts (two-byte characters with every lead byte range), also as would-be command names
+            "echo \u043f\u0440\u0438\u0432\u0435\u0442", "echo \u05e9\u05dc\u05d5\u05dd \u0645\u0631\u062d\u0628\u0627", "echo caf\u00e9 \u03a9", "\u0434\u0430", "print \u07ff"]
 
     def one(ix):
         e = entries[ix]
@@ -1991,7 +2133,25 @@ def c05_cli(ctx, res, limit):
         elif r.rc != 0 and not r.err.strip():
             res.violate("C05/cli/no-diagnostic", "`lace check` failed (exit %s) without printing a diagnostic" % r.rc,
                         dict(r.brief(), source=texts[ix][:1500]))
-    res.require(["l2:check_fuzz"], "L2")
+    # the other ways into the assembler (the short form `lace <file>`, run, compile, debug with an empty
+    # script), with and without the flag, on texts that use the extension's words as instructions and as
+    # would-be labels: a diagnostic or a run, never an abort
+    words = ["push r0\nhalt\n", "pop r1\n", "call f\nhalt\nf rets\n", "rets\n", "push .fill x1\nld r0 push\nhalt\n", "halt\ncall halt\n", "POP: add r0 r0 #1\nhalt\n",
+             "lea r0 m\nputs\nhalt\nm .stringz \"push pop\"\n", "; push pop call rets\nhalt\n"]
+    jobs = []
+    for wi, t in enumerate(words):
+        _write(os.path.join(d, "w%d.asm" % wi), t)
+        for form in (["w%d.asm" % wi], ["w%d.asm" % wi, "-f", "stack"], ["w%d.asm" % wi, "--minimal"], ["run", "w%d.asm" % wi], ["run", "w%d.asm" % wi, "-f", "stack"],
+                     ["compile", "w%d.asm" % wi, "w%d_%%d.lc3" % wi], ["debug", "w%d.asm" % wi, "--minimal"], ["check", "w%d.asm" % wi, "-f", "stack"]):
+            jobs.append((wi, [a % len(jobs) if "%d" in a else a for a in form]))
+    for (wi, form), r in pmap(lambda j: (j, lace(ctx, j[1], cwd=d, stdin=b"", timeout=60)), jobs):
+        res.evaluations += 1
+        res.cls("l2:extension_words_through:" + (form[0] if form[0] in ("run", "compile", "debug", "check") else "short_form"))
+        if r.rc is None or r.crashed:
+            res.violate("C05/cli/crash", "`lace %s` crashed or hung (exit %s)" % (" ".join(form), r.rc), dict(r.brief(), source=words[wi]))
+        elif r.rc not in (0, 238) and not (r.err.strip() or r.out.strip()):
+            res.violate("C05/cli/no-diagnostic", "`lace %s` failed (exit %s) without printing anything" % (" ".join(form), r.rc), dict(r.brief(), source=words[wi]))
+    res.require(["l2:check_fuzz", "l2:extension_words_through:short_form", "l2:extension_words_through:run"], "L2")
 
 
 # ------------------------------------------------------------------ C01 (L2 sample)
@@ -2044,7 +2204,25 @@ def c01_cli(ctx, res, limit):
             if r.rc != 0 or tag.encode() not in body or other.encode() in body:
                 res.violate("C01/cli/ran-another-image", "`lace %s` printed %r (exit %s): the source prints %r, the object file lying next to it %r"
                             % (" ".join(args), body[-40:], r.rc, tag, other), dict(r.brief(), source=prog(tag)))
-    res.require(["l2:compile", "l2:run_next_to_object_file_of_other_text"], "L2")
+    # the default destination: the source's name with its last extension replaced, next to where lace runs -
+    # also for names with several dots, whose siblings differ only behind the first dot
+    d3 = _dir(ctx, "c01_default_dest")
+    fam = [("blink.asm", "ALPHA"), ("blink.v2.asm", "BRAVO"), ("blink.v2.final.asm", "CHARLIE"), ("my prog.1.asm", "DELTA"), (".hidden.asm", "ECHO")]
+    for name, tag in fam:
+        _write(os.path.join(d3, name), prog(tag))
+    for name, tag in fam:
+        lace(ctx, ["compile", name], cwd=d3)
+    for name, tag in fam:
+        res.evaluations += 1
+        res.cls("l2:default_destination")
+        dest = os.path.join(d3, name[:-4] + ".lc3")
+        want = bytes.fromhex("3000e002f022f025") + b"".join(ord(c).to_bytes(2, "big") for c in tag) + b"\x00\x00"
+        data = open(dest, "rb").read() if os.path.exists(dest) else None
+        if data != want:
+            res.violate("C01/cli/default-destination", "after compiling %s without a destination, %s holds %s; the image of that source is %d bytes ending in %r"
+                        % ([n for n, _ in fam], os.path.basename(dest), "nothing (no such file)" if data is None else "%d other bytes" % len(data), len(want), tag),
+                        {"directory": sorted(os.listdir(d3)), "source": prog(tag)})
+    res.require(["l2:compile", "l2:run_next_to_object_file_of_other_text", "l2:default_destination"], "L2")
 
 
 # ------------------------------------------------------------------ valgrind samples (thorough)
